@@ -325,7 +325,7 @@ func init() {
 	}
 	register(&Prop{
 		ID:   "C11",
-		Rule: "token strings over {prefix, suffix, separator, text chars}: exhaustive in length-lex order (all strings up to length 4 quick / 5 thorough over {PRE,SUF,SEP,a,b}) for two fixed tables (one acyclic with a nested reference, one with a two-key cycle and a key containing the separator), then random templates from the grammar (nesting <= 4, repetition, unknown keys, defaults containing placeholders, unterminated tails, stray suffixes/separators) with random tables over <= 4 keys whose values are templates; every case under one of 5 non-overlapping delimiter triples (incl. multi-byte, multi-character). Observable: result string (re-tokenised) or 'circular reference' panic; Go-side: independent recursive-descent reference, 3 s divergence timeout. Non-trivial: template nests or repeats a placeholder. Distinct by (triple, table, input).",
+		Rule: "token strings over {prefix, suffix, separator, text chars}: exhaustive in length-lex order (all strings up to length 4 quick / 5 thorough over {PRE,SUF,SEP,a,b}) for two fixed tables (one acyclic with a nested reference, one with a two-key cycle and a key containing the separator), then random templates from the grammar (nesting <= 4, repetition, unknown keys, defaults containing placeholders, unterminated tails, stray suffixes/separators) with random tables over <= 4 keys whose values are templates, single characters or empty; every case under one of 5 non-overlapping delimiter triples (incl. multi-byte, multi-character). Observable: result string (re-tokenised) or 'circular reference' panic; Go-side: independent recursive-descent reference, 3 s divergence timeout. Non-trivial: template nests or repeats a placeholder. Distinct by (triple, table, input).",
 		Corpus: func() []Case {
 			t := c11Table{keys: []rtoks{a}, vals: []rtoks{{5}}}
 			return []Case{
@@ -355,7 +355,9 @@ func init() {
 					continue
 				}
 				tbl.keys = append(tbl.keys, k)
-				if r.Intn(3) == 0 {
+				if r.Intn(8) == 0 {
+					tbl.vals = append(tbl.vals, rtoks{}) // a key that is present with the empty value
+				} else if r.Intn(3) == 0 {
 					tbl.vals = append(tbl.vals, rtoks{rtok(3 + r.Intn(len(c11Chars)))})
 				} else {
 					tbl.vals = append(tbl.vals, c11GenTemplate(r, 2, keys))
